@@ -14,7 +14,6 @@ package c07
 
 import (
 	"bytes"
-	"encoding/json"
 	"fmt"
 	"os"
 	"regexp"
@@ -44,6 +43,8 @@ type mon struct {
 	r  *ev.Run
 	mu sync.Mutex
 }
+
+var conflictRe = regexp.MustCompile(`name conflict: "([^"]+)"`)
 
 var (
 	posRe   = regexp.MustCompile(`(at )?[^\s:"]*:\d+:\d+|line \d+(:\d+)?|column \d+`)
@@ -196,6 +197,9 @@ func (m *mon) decide(id string, g *Graph, sel []int, base, other *Outcome, inl F
 			poisoned = true
 			violate("shared-header-component/name-leaks", fmt.Sprintf("in the API of the %s: %s", oc.n, strings.Join(d.HeaderLeaks, "; ")), d)
 		}
+		if len(d.RefKeyTwins) > 0 {
+			violate("percent-encoded-pointer/two-ref-keys-for-one-target", fmt.Sprintf("in the API of the %s: %s", oc.n, strings.Join(d.RefKeyTwins, "; ")), d)
+		}
 		if len(d.OpsMissing) > 0 || len(d.OpsExtra) > 0 {
 			poisoned = true
 			sig := "operations-differ-from-document"
@@ -213,17 +217,19 @@ func (m *mon) decide(id string, g *Graph, sel []int, base, other *Outcome, inl F
 	// (1) parse level
 	switch {
 	case base.Parsed() && !other.Parsed():
-		violate("inlined-fails-to-parse/"+kinds+":"+errClass(other.ParseText()), "document parses, its inlined form does not: "+other.ParseText(), other.ParseText())
+		violate("inlined-fails-to-parse:"+errClass(other.ParseText()), "document parses, its inlined form does not: "+other.ParseText(), other.ParseText())
 		return st
 	case !base.Parsed() && other.Parsed():
-		sig := "ref-fails-to-parse/" + kinds + ":" + errClass(base.ParseText())
-		if strings.Contains(base.ParseText(), "invalid URL escape") || strings.Contains(base.ParseText(), "can't find value") {
-			// a pointer that spells a literal '%' as %25 and is not found / not decodable: decoded once too often
-			for _, i := range sel {
-				if strings.Contains(g.Holders[i].Ref, "%25") {
-					sig = "fragment-percent-decoded-twice"
-				}
+		sig := "ref-fails-to-parse:" + errClass(base.ParseText())
+		pct := strings.Contains(base.ParseText(), "%25")
+		for _, h := range g.Holders {
+			if strings.Contains(h.Ref, "%25") {
+				pct = true
 			}
+		}
+		if t := base.ParseText(); pct && (strings.Contains(t, "invalid URL escape") || strings.Contains(t, "can't find value")) {
+			// a pointer of the document spells a literal '%' as %25 and is not found / not decodable: decoded once too often
+			sig = "fragment-percent-decoded-twice"
 		}
 		violate(sig, "inlined form parses, the document with the reference does not: "+base.ParseText(), base.ParseText())
 		return st
@@ -231,15 +237,20 @@ func (m *mon) decide(id string, g *Graph, sel []int, base, other *Outcome, inl F
 		r.Count("both_fail_to_parse", 1)
 		return st
 	}
-	apiDiffs := compare(base.APIGraph, other.APIGraph, 12)
+	allAPIDiffs := compare(base.APIGraph, other.APIGraph, 24)
 	seenSig := map[string]bool{}
-	for _, d := range apiDiffs {
+	// differences that the IR shape does not look at (documentation, example lists) do not stop the generator-level comparison
+	var apiDiffs []diff
+	for _, d := range allAPIDiffs {
 		sig := classifyAPIDiff(d, g)
+		if sig != "schema-property-description-dropped-behind-ref" && sig != "media-examples-accumulate-on-shared-schema" {
+			apiDiffs = append(apiDiffs, d)
+		}
 		if seenSig[sig] {
 			continue
 		}
 		seenSig[sig] = true
-		violate(sig, fmt.Sprintf("parsed API differs at %s: with references %s, inlined %s", d.Path, d.A, d.B), apiDiffs)
+		violate(sig, fmt.Sprintf("parsed API differs at %s: with references %s, inlined %s", d.Path, d.A, d.B), allAPIDiffs)
 	}
 	if !o.Gen {
 		return st
@@ -251,29 +262,80 @@ func (m *mon) decide(id string, g *Graph, sel []int, base, other *Outcome, inl F
 			r.Count("generator_outcome_differs_after_api_difference", 1)
 			return st
 		}
-		if base.GenOK() {
-			sig := "inlined-fails-to-generate/" + kinds + ":" + errClass(other.GenText())
-			if strings.Contains(other.GenText(), "name conflict") {
-				sig = "inlined-fails-to-generate/type-name-conflict"
+		bad, side := other, "inlined-fails-to-generate"
+		if !base.GenOK() {
+			bad, side = base, "ref-fails-to-generate"
+		}
+		sig := side + ":" + errClass(bad.GenText())
+		if mm := conflictRe.FindStringSubmatch(bad.GenText()); mm != nil {
+			sig = side + "/type-name-conflict"
+			if strings.HasSuffix(mm[1], "Headers") || strings.HasSuffix(mm[1], "StatusCode") {
+				// two responses whose bodies refer to one schema get one wrapper type name
+				sig = "response-wrapper-keyed-by-schema-ref"
 			}
-			violate(sig, "document generates, its inlined form does not: "+other.GenText(), other.GenText())
+		}
+		if side == "inlined-fails-to-generate" {
+			violate(sig, "document generates, its inlined form does not: "+bad.GenText(), bad.GenText())
 		} else {
-			violate("ref-fails-to-generate/"+kinds+":"+errClass(base.GenText()), "inlined form generates, the document with the reference does not: "+base.GenText(), base.GenText())
+			violate(sig, "inlined form generates, the document with the reference does not: "+bad.GenText(), bad.GenText())
 		}
 		return st
 	case !base.GenOK() && !other.GenOK():
 		r.Count("both_fail_to_generate", 1)
 		return st
 	}
+	irPoisoned := false
+	for _, oc := range []struct {
+		n string
+		o *Outcome
+	}{{"document with references", base}, {"partly inlined document", other}} {
+		is := oc.o.IRIssues
+		if !is.Any() {
+			continue
+		}
+		irPoisoned = true
+		if len(is.StatusCode) > 0 {
+			violate("shared-response-component/status-code-wrapper-leaks", fmt.Sprintf("in the IR of the %s: %s", oc.n, strings.Join(is.StatusCode, "; ")), is)
+		}
+		if len(is.HeaderName) > 0 {
+			violate("shared-header-component/name-leaks", fmt.Sprintf("in the IR of the %s: %s", oc.n, strings.Join(is.HeaderName, "; ")), is)
+		}
+		if len(is.Wrapper) > 0 {
+			violate("response-wrapper-keyed-by-schema-ref", fmt.Sprintf("in the IR of the %s: %s", oc.n, strings.Join(is.Wrapper, "; ")), is)
+		}
+	}
+	if irPoisoned {
+		r.Count("cases_ir_not_compared_after_direct_finding", 1)
+		return st
+	}
 	if base.Shape != nil && other.Shape != nil {
-		sd := compare(base.Shape, other.Shape, 8)
+		sd := compare(base.Shape, other.Shape, 40)
 		if len(sd) > 0 {
 			if len(apiDiffs) > 0 {
 				r.Count("ir_shape_differs_after_api_difference", 1)
 			} else {
 				seen := map[string]bool{}
+				wsc := map[string]bool{}
+				wrp := map[string]bool{}
+				for _, d := range sd {
+					if strings.HasSuffix(d.Norm, "WithStatusCode") {
+						wsc[responsePrefix(d.Path)] = true
+					}
+					if strings.HasSuffix(d.Norm, "Contents.*.Type.Fields.*.Key") && strings.HasPrefix(d.A, `"go:`) && strings.HasPrefix(d.B, `"go:`) {
+						// the wrapper struct of a response carries the header fields of another response
+						wrp[responsePrefix(d.Path)] = true
+					}
+				}
 				for _, d := range sd {
 					sig := "ir-differs:" + d.Norm
+					switch {
+					case strings.HasSuffix(d.Norm, "NilSemantic"):
+						sig = "shared-array-schema/nil-semantic-leaks"
+					case wsc[responsePrefix(d.Path)]:
+						sig = "shared-response-component/status-code-wrapper-leaks"
+					case wrp[responsePrefix(d.Path)]:
+						sig = "response-wrapper-keyed-by-schema-ref"
+					}
 					if seen[sig] {
 						continue
 					}
@@ -293,23 +355,25 @@ func (m *mon) decide(id string, g *Graph, sel []int, base, other *Outcome, inl F
 				if base.GenStage == "write" {
 					bad, n = base, "with-references"
 				}
-				violate("write-outcome-differs/"+kinds+":"+errClass(bad.GenText()), "WriteSource fails only for the "+n+" document: "+bad.GenText(), bad.GenText())
+				violate("write-outcome-differs:"+errClass(bad.GenText()), "WriteSource fails only for the "+n+" document: "+bad.GenText(), bad.GenText())
 			}
 		}
 		return st
 	}
 	schemaInlined := false
 	for _, i := range sel {
-		if g.Holders[i].Kind == "schema" {
+		if g.Holders[i].Kind == "schema" || g.Holders[i].Kind == "response" {
+			// a referenced primitive/array schema is a named Go type and its copy is not; a referenced response is
+			// generated once (named after its first use) and its copy per operation: declared names may coincide
+			// while their uses differ
 			schemaInlined = true
 		}
 	}
-	// a referenced primitive/array schema is a named Go type, its copy is not: bytes may differ although the declared names coincide
 	if base.Files != nil && other.Files != nil && sameStrings(base.Types, other.Types) && !schemaInlined {
-		st.byteCompared = true
-		if len(apiDiffs) > 0 {
+		if len(allAPIDiffs) > 0 {
 			return st
 		}
+		st.byteCompared = true
 		var names []string
 		for n := range base.Files {
 			names = append(names, n)
@@ -320,13 +384,44 @@ func (m *mon) decide(id string, g *Graph, sel []int, base, other *Outcome, inl F
 			}
 		}
 		sort.Strings(names)
+		byteSig := func(n string) string {
+			for _, h := range g.Holders {
+				if _, frag, _ := splitRef(h.Ref); strings.Contains(frag, "%") {
+					// the parser keys a reference standing in the root document by its raw fragment and one standing
+					// inside a referenced object by the decoded fragment: one target, two keys, two Go types
+					return "percent-encoded-pointer/two-ref-keys-for-one-target"
+				}
+			}
+			return "bytes-differ-with-equal-type-names/" + kinds + ":" + n
+		}
 		for _, n := range names {
 			a, b := base.Files[n], other.Files[n]
-			if !bytes.Equal(a, b) {
-				la, lb := firstDiffLine(a, b)
-				violate("bytes-differ-with-equal-type-names/"+kinds+":"+n, fmt.Sprintf("same type names but %s differs: with references %q, inlined %q", n, la, lb), map[string]string{"file": n, "with_references": la, "inlined": lb})
-				break
+			if bytes.Equal(a, b) {
+				continue
 			}
+			if (n == "oas_json_gen.go" || n == "oas_uri_gen.go") && a != nil && b != nil {
+				// which types get JSON / URI codecs depends on where a *shared* type is used (ogen's
+				// per-type feature sets): a codec existing on one side only is tallied; one that exists
+				// on both sides must be the same text
+				differ, onlyA, onlyB, err := compareDecls(a, b)
+				if err == nil && len(differ) == 0 {
+					r.Count("codec_declarations_on_one_side_only", len(onlyA)+len(onlyB))
+					continue
+				}
+				if err == nil {
+					violate(byteSig(n), fmt.Sprintf("same type names but declarations %v of %s differ", differ, n), map[string]any{"file": n, "declarations": differ})
+					if verbose {
+						printLineDiff(a, b, 40)
+					}
+					break
+				}
+			}
+			la, lb := firstDiffLine(a, b)
+			violate(byteSig(n), fmt.Sprintf("same type names but %s differs: with references %q, inlined %q", n, la, lb), map[string]string{"file": n, "with_references": la, "inlined": lb})
+			if verbose {
+				printLineDiff(a, b, 40)
+			}
+			break
 		}
 	}
 	return st
@@ -350,8 +445,10 @@ func firstDiffLine(a, b []byte) (string, string) {
 }
 
 // subsets lists the inlining subsets for n inlinable references: all non-empty
-// ones when n <= 6, else 32 chosen by the PRNG (the full set and some singletons first).
-func subsets(n int, rng *ev.Rand) [][]int {
+// ones when n <= 6, else 32: the full set, all non-schema references together,
+// singletons (non-schema ones first: they are the ones the byte comparison
+// applies to), then PRNG-chosen subsets (half of them without schema references).
+func subsets(n int, nonSchema []int, rng *ev.Rand) [][]int {
 	var out [][]int
 	if n == 0 {
 		return nil
@@ -368,32 +465,48 @@ func subsets(n int, rng *ev.Rand) [][]int {
 		}
 		return out
 	}
+	seen := map[string]bool{}
+	add := func(s []int) {
+		if len(s) == 0 || seen[fmt.Sprint(s)] || len(out) >= 32 {
+			return
+		}
+		seen[fmt.Sprint(s)] = true
+		out = append(out, s)
+	}
 	full := make([]int, n)
 	for i := range full {
 		full[i] = i
 	}
-	out = append(out, full)
-	seen := map[string]bool{fmt.Sprint(full): true}
-	for tries := 0; len(out) < 12 && tries < 200; tries++ {
-		s := []int{rng.Intn(n)}
-		if !seen[fmt.Sprint(s)] {
-			seen[fmt.Sprint(s)] = true
-			out = append(out, s)
-		}
+	add(full)
+	add(append([]int{}, nonSchema...))
+	ns := append([]int{}, nonSchema...)
+	for i := len(ns) - 1; i > 0; i-- {
+		j := rng.Intn(i + 1)
+		ns[i], ns[j] = ns[j], ns[i]
+	}
+	for i := 0; i < len(ns) && i < 10; i++ {
+		add([]int{ns[i]})
+	}
+	for tries := 0; len(out) < 18 && tries < 200; tries++ {
+		add([]int{rng.Intn(n)})
 	}
 	for tries := 0; len(out) < 32 && tries < 1000; tries++ {
 		var s []int
 		p := 20 + rng.Intn(60)
-		for i := 0; i < n; i++ {
-			if rng.Chance(p) {
-				s = append(s, i)
+		if tries%2 == 0 && len(nonSchema) > 1 {
+			for _, i := range nonSchema {
+				if rng.Chance(p) {
+					s = append(s, i)
+				}
+			}
+		} else {
+			for i := 0; i < n; i++ {
+				if rng.Chance(p) {
+					s = append(s, i)
+				}
 			}
 		}
-		if len(s) == 0 || seen[fmt.Sprint(s)] {
-			continue
-		}
-		seen[fmt.Sprint(s)] = true
-		out = append(out, s)
+		add(s)
 	}
 	return out
 }
@@ -418,6 +531,8 @@ func (m *mon) transparency(id string, fs FileSet, rng *ev.Rand, o RunOpts, only 
 			r.Count("references_recursive_not_inlined", 1)
 		case h.Siblings:
 			r.Count("references_with_siblings_not_inlined", 1)
+		case h.Discriminated:
+			r.Count("references_named_by_a_discriminator_not_inlined", 1)
 		}
 	}
 	if len(inl) == 0 {
@@ -430,22 +545,36 @@ func (m *mon) transparency(id string, fs FileSet, rng *ev.Rand, o RunOpts, only 
 	expOps, opsKnown := g.ExpectedOps()
 	if base.Parsed() {
 		base.Direct = CheckDirect(base.API, expOps, opsKnown)
+		if !strings.HasPrefix(id, "corpus/") {
+			// (the harness's own documents never contain two names that differ only by percent-encoding)
+			base.Direct.RefKeyTwins = RefKeyTwins(base.API)
+		}
 	}
 	if base.Parsed() {
 		r.Count("graphs_base_parses", 1)
 	} else {
 		r.Count("graphs_base_fails_to_parse", 1)
+		r.Count("base_parse_failure/"+errClass(base.ParseText()), 1)
 	}
 	if o.Gen {
 		if base.GenOK() {
 			r.Count("graphs_base_generates", 1)
 		} else {
 			r.Count("graphs_base_fails_to_generate", 1)
+			if base.Parsed() {
+				r.Count("base_generate_failure/"+errClass(base.GenText()), 1)
+			}
 		}
 	}
 	subs := only
 	if subs == nil {
-		for _, s := range subsets(len(inl), rng) {
+		var nonSchema []int
+		for k, i := range inl {
+			if g.Holders[i].Kind != "schema" && g.Holders[i].Kind != "response" {
+				nonSchema = append(nonSchema, k)
+			}
+		}
+		for _, s := range subsets(len(inl), nonSchema, rng) {
 			var sel []int
 			for _, i := range s {
 				sel = append(sel, inl[i])
@@ -454,7 +583,7 @@ func (m *mon) transparency(id string, fs FileSet, rng *ev.Rand, o RunOpts, only 
 		}
 	}
 	written := 0
-	maxWritten := m.r.N(8, 5)
+	maxWritten := m.r.N(14, 8)
 	for si, sel := range subs {
 		ifs, err := g.Inline(sel)
 		if err != nil {
@@ -574,7 +703,7 @@ func Main(args []string) int {
 	}
 
 	// ---- random reference DAGs
-	ngraphs := r.N(300, 5000)
+	ngraphs := r.N(300, 3000)
 	if v := os.Getenv("C07_GRAPHS"); v != "" {
 		fmt.Sscan(v, &ngraphs)
 	}
@@ -654,13 +783,72 @@ func (m *mon) replay(w Witness, mod *genlab.Module) {
 		}
 	case "cycle", "chain":
 		c := cycleCase{id: w.ID, fs: w.FS, expect: w.Expect}
+		if strings.HasPrefix(w.FS.Files[w.FS.Root], "(document too large") {
+			// w/chain/<kind>/<n> and w/chain-in-components/<kind>/<n> are rebuilt from their id
+			parts := strings.Split(w.ID, "/")
+			if len(parts) == 4 {
+				var n int
+				fmt.Sscan(parts[3], &n)
+				cont := "x-defs"
+				if parts[1] == "chain-in-components" {
+					cont = "components"
+				}
+				c.fs = chainDoc(parts[2], n, cont)
+			}
+		}
+		for _, k := range allKinds {
+			if strings.Contains(w.ID, "/"+k+"/") {
+				c.kind = k
+			}
+		}
 		m.cycleInProcess(c, true)
 	}
 }
 
-func jsonString(v any) string {
-	b, _ := json.Marshal(v)
-	return string(b)
+
+// printLineDiff prints lines that occur in only one of the two texts (multiset difference, in order).
+func printLineDiff(a, b []byte, max int) {
+	la, lb := strings.Split(string(a), "\n"), strings.Split(string(b), "\n")
+	ca, cb := map[string]int{}, map[string]int{}
+	for _, l := range la {
+		ca[l]++
+	}
+	for _, l := range lb {
+		cb[l]++
+	}
+	n := 0
+	for _, l := range la {
+		if cb[l] > 0 {
+			cb[l]--
+			continue
+		}
+		if n < max {
+			fmt.Println("   - (with references only) ", l)
+		}
+		n++
+	}
+	n = 0
+	for _, l := range lb {
+		if ca[l] > 0 {
+			ca[l]--
+			continue
+		}
+		if n < max {
+			fmt.Println("   + (inlined only)         ", l)
+		}
+		n++
+	}
 }
 
-var _ = os.Getenv
+// responsePrefix cuts a shape path after ".../Responses/[code]".
+func responsePrefix(p string) string {
+	i := strings.Index(p, "/Responses/")
+	if i < 0 {
+		return "-"
+	}
+	rest := p[i+len("/Responses/"):]
+	if j := strings.Index(rest, "/"); j >= 0 {
+		rest = rest[:j]
+	}
+	return p[:i] + "/Responses/" + rest
+}
